@@ -200,6 +200,9 @@ type c16Acc struct {
 	ps     [][]byte
 	idx    uint64
 	nl     uint64
+	// arguments handed to the tree live in one arena (see alloc)
+	arena, arenaShadow []byte
+	arenaLen           int
 	cached map[[2]int][]byte // roots of cached sub-trees (outputs of logged builder scenarios)
 	// the slices returned by one earlier Prove, kept as a caller would keep them (no copy)
 	heldRoot []byte
@@ -259,16 +262,19 @@ func (a *c16Acc) Push(data []byte) {
 	if arg == nil {
 		arg = []byte{}
 	}
+	if len(arg) > 0 {
+		arg = a.alloc(arg)
+	}
 	e := Ev{"op": "Push", "data": bytesToInts(data)}
 	if m, p := c16try(func() { a.tree.Push(arg) }); p {
 		e["panic"] = m
 	}
-	e["intact"] = bytes.Equal(arg, data)
+	e["intact"] = bytes.Equal(arg, data) && a.arenaIntact()
 	a.emit(e)
 }
 
 func (a *c16Acc) PushSubTree(h int, sum []byte) {
-	arg := c16clone(sum)
+	arg := a.alloc(sum)
 	var err error
 	e := Ev{"op": "PushSubTree", "h": h, "sum": bytesToInts(sum)}
 	if m, p := c16try(func() { err = a.tree.PushSubTree(h, arg) }); p {
@@ -276,9 +282,33 @@ func (a *c16Acc) PushSubTree(h int, sum []byte) {
 	} else if err != nil {
 		e["err"] = err.Error()
 	}
-	e["intact"] = bytes.Equal(arg, sum)
+	e["intact"] = bytes.Equal(arg, sum) && a.arenaIntact()
 	a.emit(e)
 }
+
+// alloc copies b into the trace's arena and returns a view whose spare capacity reaches to the end of the arena: the sub-tree
+// sums a caller hands over live back to back in one buffer. The tree keeps the slices it is given, so the arena is compared with
+// its shadow after every later call as well (arenaIntact): an append to a retained argument lands in the sentinel area.
+func (a *c16Acc) alloc(b []byte) []byte {
+	if b == nil {
+		return nil
+	}
+	if a.arena == nil || a.arenaLen+len(b) > len(a.arena)-256 {
+		a.arena = make([]byte, 1<<15)
+		for i := range a.arena {
+			a.arena[i] = byte(0x5A ^ i)
+		}
+		a.arenaShadow = c16clone(a.arena)
+		a.arenaLen = 0
+	}
+	copy(a.arena[a.arenaLen:], b)
+	copy(a.arenaShadow[a.arenaLen:], b)
+	v := a.arena[a.arenaLen : a.arenaLen+len(b)]
+	a.arenaLen += len(b)
+	return v
+}
+
+func (a *c16Acc) arenaIntact() bool { return bytes.Equal(a.arena, a.arenaShadow) }
 
 func (a *c16Acc) ReadAll(stream []byte, seg, chunk, failat int) {
 	r := &c16Reader{data: c16clone(stream), chunk: chunk, failat: failat}
@@ -304,6 +334,9 @@ func (a *c16Acc) Root() []byte {
 		e["rootnil"] = true
 	} else {
 		e["root"] = bytesToInts(root)
+	}
+	if a.arena != nil {
+		e["intact"] = a.arenaIntact() // Root joins the retained sub-tree sums
 	}
 	a.emit(e)
 	return root
@@ -336,6 +369,9 @@ func (a *c16Acc) prove(hold bool) bool {
 		return false
 	}
 	a.recordProof(e, root, ps, idx, nl)
+	if a.arena != nil {
+		e["intact"] = a.arenaIntact()
+	}
 	a.emit(e)
 	return ps != nil
 }
@@ -429,14 +465,47 @@ func (a *c16Acc) Verify(m c16Mod) {
 	c16putU64(e, "idx", idx)
 	c16putU64(e, "nl", nl)
 	root0, ps0 := c16clone(root), c16clone2(ps)
+	// root and proof elements are views into one flat buffer (spare capacity over their neighbours)
+	flat, views := c16flat(append([][]byte{root}, ps...)...)
+	flat0 := c16clone(flat)
+	root = views[0]
+	if ps != nil {
+		ps = views[1:]
+	}
 	var ret bool
 	if msg, p := c16try(func() { ret = merkletree.VerifyProof(a.newHash(), root, ps, idx, nl) }); p {
 		e["panic"] = msg
 	} else {
 		e["ret"] = ret
 	}
-	e["intact"] = bytes.Equal(root, root0) && (root == nil) == (root0 == nil) && c16equal2(ps, ps0)
+	e["intact"] = bytes.Equal(root, root0) && (root == nil) == (root0 == nil) && c16equal2(ps, ps0) && bytes.Equal(flat, flat0)
 	a.emit(e)
+}
+
+// c16flat lays the caller-owned slices out in ONE backing buffer, each view with spare capacity that reaches over the
+// following ones (the way proof sets and cached sub-tree roots are cut out of a flat buffer), followed by sentinel bytes:
+// code that appends to an argument instead of copying it writes into its neighbours.
+func c16flat(parts ...[]byte) ([]byte, [][]byte) {
+	n := 0
+	for _, p := range parts {
+		n += len(p)
+	}
+	flat := make([]byte, 0, n+48)
+	offs := make([]int, len(parts))
+	for i, p := range parts {
+		offs[i] = len(flat)
+		flat = append(flat, p...)
+	}
+	for i := 0; i < 48; i++ {
+		flat = append(flat, byte(0xA5^i))
+	}
+	views := make([][]byte, len(parts))
+	for i, p := range parts {
+		if p != nil {
+			views[i] = flat[offs[i] : offs[i]+len(p)]
+		}
+	}
+	return flat, views
 }
 
 // value tampering that keeps a MiMC input well formed (whole canonical blocks)
